@@ -1,13 +1,13 @@
 #!/bin/bash
 # usage: run_seeded.sh <seeded-dir-name> [tier]   e.g. run_seeded.sh C02-1
-# Applies the seeded mutant to /repo, runs the property's check, reverts. Prints DETECTED / MISSED.
+# Applies the seeded change to a SCRATCH COPY of the repository (/tmp/alt/repo, VERIF_ALT mode of ./check),
+# runs the property's check there, reverts.  /repo itself is never touched.  Prints DETECTED / MISSED.
 S=$1; TIER=${2:-quick}
 D=/verif/seeded/$S
 PID=$(python3 -c "import json;print(json.load(open('$D/meta.json'))['property'])")
-cd /repo && git diff --quiet || { echo "repo dirty"; exit 2; }
-git apply $D/patch.diff || { echo "$S: patch does not apply"; exit 3; }
-cd /verif && ./check $PID $TIER > /tmp/mut/seedrun_$S.txt 2>&1; RC=$?
-git -C /repo checkout -- .
-find /verif/replays -name "$PID-*.json" -newer $D/patch.diff -delete 2>/dev/null
-if [ $RC -eq 1 ]; then echo "$S: DETECTED by ./check $PID $TIER"; elif [ $RC -eq 0 ]; then echo "$S: MISSED by ./check $PID $TIER"; else echo "$S: TOOL-ERROR rc=$RC"; tail -5 /tmp/mut/seedrun_$S.txt; fi
+/verif/tools/alt_setup.sh >/dev/null || { echo "alt setup failed"; exit 2; }
+cd /tmp/alt/repo && git apply $D/patch.diff || { echo "$S: patch does not apply"; exit 3; }
+cd /verif && VERIF_ALT=/tmp/alt ./check $PID $TIER > /tmp/alt/seedrun_$S.txt 2>&1; RC=$?
+git -C /tmp/alt/repo checkout -q -- .
+if [ $RC -eq 1 ]; then echo "$S: DETECTED by ./check $PID $TIER"; elif [ $RC -eq 0 ]; then echo "$S: MISSED by ./check $PID $TIER"; else echo "$S: TOOL-ERROR rc=$RC"; tail -5 /tmp/alt/seedrun_$S.txt; fi
 exit 0
